@@ -112,7 +112,10 @@ def run(module: str, cfg: str, *, workers: int | str = 16, env: dict | None = No
         for f in SPEC_DIR.glob("*.tla"):
             shutil.copy(f, work / f.name)
         (work / f"{module}.cfg").write_text(cfg)
-        cmd = ["java", "-XX:+UseParallelGC", "-Xmx8g"]
+        if str(workers) == "1":
+            cmd = ["java", "-XX:+UseSerialGC", "-Xms64m", "-Xmx3g"]
+        else:
+            cmd = ["java", "-XX:+UseParallelGC", "-XX:ParallelGCThreads=4", "-Xms128m", "-Xmx6g"]
         if dfs:
             cmd.append("-Dtlc2.tool.queue.IStateQueue=StateDeque")
         cmd += ["-cp", JAR + ":/opt/veriftools/tla/CommunityModules-deps.jar", "tlc2.TLC",
